@@ -12,6 +12,7 @@ import (
 // advance(d) of the virtual clock, request -> (label, fetch id), purge.
 
 type pState struct {
+	PrevVer int64 // version of the entry that expired last (0 after a purge or a refetch)
 	Now     int64
 	St      int
 	Ver     int64
@@ -24,6 +25,8 @@ type pIn struct {
 	Op  string // advance | req | purge
 	D   int64
 	HFP int64
+	// TolerateStale: a hit of the version that has just expired is accepted (staleness is judged by C04)
+	TolerateStale bool
 }
 
 type pOut struct {
@@ -39,6 +42,7 @@ func pNorm(s pState) pState {
 	case stHit:
 		if s.Now-s.Created > s.T {
 			s.St = stNone
+			s.PrevVer = s.Ver
 		}
 	case stHFP:
 		if s.Now > s.Until {
@@ -63,6 +67,7 @@ func entryPorcupineModel(start int64) porcupine.Model {
 				return true, pNorm(s)
 			case "purge":
 				s.St = stNone
+				s.PrevVer = 0
 				return true, pNorm(s)
 			}
 			out := output.(pOut)
@@ -73,6 +78,9 @@ func entryPorcupineModel(start int64) porcupine.Model {
 			}
 			switch out.Label {
 			case "hit":
+				if in.TolerateStale && s.St == stNone && s.PrevVer != 0 && s.PrevVer == out.Fetch {
+					return true, s
+				}
 				return s.St == stHit && s.Ver == out.Fetch, s
 			case "hitForPass":
 				return s.St == stHFP, s
@@ -121,7 +129,7 @@ func porcupineCheck(start int64, ops []porcupine.Operation) string {
 }
 
 func reqOp(client int, res *hx.Result, hfp int64, life int64) porcupine.Operation {
-	return porcupine.Operation{ClientId: client, Input: pIn{Op: "req", HFP: hfp}, Call: res.CallSeq,
+	return porcupine.Operation{ClientId: client, Input: pIn{Op: "req", HFP: hfp, TolerateStale: true}, Call: res.CallSeq,
 		Output: pOut{Label: res.Label, Fetch: res.FetchID, Status: res.Status, Life: life, Failed: res.Err != nil || res.Status >= 500}, Return: res.RetSeq}
 }
 
